@@ -2,4 +2,6 @@ SPECIFICATION SSpec
 CONSTANTS Names = {"A", "B", "AB", "_x"} Values = {"", "v w", "p=q:r", "q'r", "x"} MaxOps = 999 WalkLen = 30
 INVARIANT SAgree
 INVARIANT Emit
+CONSTANT ReadShapes <- ShapesSim
+CONSTANT ReadMax = 4
 CHECK_DEADLOCK FALSE
